@@ -157,7 +157,11 @@ func run(c *Case) *vkit.Outcome {
 	// not judged.
 	var envTimeouts atomic.Int32
 	var curPlanned atomic.Value // kind planned for the append in flight
+	var innerAppendFailed atomic.Bool // the inner store itself refused the append in flight
 	base.OnInnerError = func(op string, err error) {
+		if op == "append" {
+			innerAppendFailed.Store(true)
+		}
 		if !errors.Is(err, context.DeadlineExceeded) && !errors.Is(err, context.Canceled) {
 			return
 		}
@@ -304,10 +308,16 @@ func run(c *Case) *vkit.Outcome {
 				publish(bus, c.UseCtx, e)
 			case "slowok":
 				// the memory store ignores the expired context and appends:
-				// a success, nothing to report; SQLite refuses the expired
-				// context: an ordinary timeout failure, nothing written
+				// a success, nothing to report; SQLite refuses an expired
+				// context: an ordinary timeout failure, nothing written.
+				// Whether the context had expired when the inner store looked
+				// at it is a matter of timers (on a starved machine 6 ms may
+				// not be enough), so the expectation follows what the inner
+				// store actually answered.
 				e := Good{ID: id, S: p.Kind}
-				failed := c.Store == "sqlite" || sqlClosed
+				innerAppendFailed.Store(false)
+				publish(bus, c.UseCtx, e)
+				failed := innerAppendFailed.Load() || sqlClosed
 				kind := "ok"
 				if failed {
 					kind = "timeout"
@@ -316,7 +326,6 @@ func run(c *Case) *vkit.Outcome {
 				if !failed {
 					okOrder = append(okOrder, id)
 				}
-				publish(bus, c.UseCtx, e)
 			default:
 				e := Good{ID: id, S: p.Kind}
 				failed := p.Kind != "ok" || sqlClosed
